@@ -60,6 +60,16 @@ Theorem C12_context_independent : forall s i, SInv s ->
 Proof. exact read_value. Qed.
 Print Assumptions C12_context_independent.
 
+(* the length may change while the array is open -- append or truncate_array inside an
+   open_array() context: the shared map is renewed, the protocol invariant is kept (so reads keep
+   returning current values, C12_context_independent, and nothing leaks, C12_discipline) *)
+Theorem C12_resize_in_context : forall s n, SInv s ->
+  let s' := snd (sched_step s (AResize n)) in
+  SInv s' /\ sc_len s' = n /\ sc_data s' = sc_data s /\ sc_users s' = sc_users s /\
+  sc_gens s' = sc_gens s /\ sc_ctx s' = sc_ctx s.
+Proof. exact resize_step. Qed.
+Print Assumptions C12_resize_in_context.
+
 Example C12_example :
   basic_index [ISlice (Some 1) None (Some 2); IEllipsis; IInt (-1)] [5; 2; 3] = Ok ([2; 2], [8; 11; 20; 23]) /\
   basic_index [INone; ISlice None None (Some (-2))] [5] = Ok ([1; 3], [4; 2; 0]) /\
